@@ -394,6 +394,14 @@ func assignedFromCall(info *types.Info, n ast.Node, call *ast.CallExpr) []types.
 			out = append(out, objOfIdent(info, l))
 		}
 	}
+	// `return call(…)` inside an inlined helper: the results land in the left-hand side of the replaced statement
+	if rs, ok := n.(*ast.ReturnStmt); ok && len(rs.Results) == 1 && ast.Unparen(rs.Results[0]) == call && len(curFrames) > 0 {
+		if fr := curFrames[len(curFrames)-1]; !fr.IsReturn {
+			for _, l := range fr.Lhs {
+				out = append(out, objOfIdent(info, l))
+			}
+		}
+	}
 	return out
 }
 
